@@ -65,6 +65,8 @@ class Arena:
         self.pending_exits = []
         #: participants whose clean-up takes virtual time (scenarios declare them)
         self.slow_leavers = set()
+        #: scenarios may know why a struck participant legitimately survived: f(kind, name, when)
+        self.excuse = None
 
     def log(self, *event):
         sess = self.sess
@@ -156,7 +158,8 @@ class Arena:
                 remaining.append((kind, name, task, when))
                 continue
             sess.stats['struck_exits_checked'] += 1
-            if not task.done and name not in self.slow_leavers:
+            if not task.done and name not in self.slow_leavers \
+                    and not (self.excuse is not None and self.excuse(kind, name, when)):
                 sess.violation(
                     'arena-struck-but-goes-on:' + kind,
                     '%s was struck (%s) at time %r and is still not done when that time step is '
